@@ -284,6 +284,24 @@ fn adversarial(family: usize, len: usize, kind: u8) -> (Vec<u8>, u8) {
                 b.extend_from_slice(b"OK\r\n\r\n");
             }
         }
+        12 => {
+            // one value with a long whitespace run in its middle (trim must not rescan)
+            b.extend_from_slice(b"a: x");
+            while b.len() + 16 < len { b.push(b' '); }
+            b.extend_from_slice(b"y\r\n");
+        }
+        13 => {
+            // one long ignored line, then many short ignored lines with CR LF ends
+            b.extend_from_slice(b"bad\x01");
+            while b.len() + 16 < len / 2 { b.push(b'z'); }
+            b.extend_from_slice(b"\r\n");
+            while b.len() + 16 < len { b.extend_from_slice(b"q\x7f\r\n"); }
+        }
+        14 => {
+            // folded value whose continuation lines are mostly trailing whitespace
+            b.extend_from_slice(b"a: x\r\n");
+            while b.len() + 40 < len { b.extend_from_slice(b" y                              \r\n"); }
+        }
         _ => {
             // folded empty values
             b.extend_from_slice(b"a:\r\n");
@@ -304,7 +322,7 @@ fn cmd_work(args: &[String]) {
     let arena = Arena::new((2 << 20) + 8192);
     let mut n = 0;
     for &len in &sizes {
-        for fam in 0..12 {
+        for fam in 0..16 {
             for kind in [K_REQ, K_RESP] {
                 let (data, all) = adversarial(fam, len, kind);
                 for cfg in [0u8, all] {
@@ -317,10 +335,16 @@ fn cmd_work(args: &[String]) {
                             let buf = arena.place(&d, Place::End);
                             let t0 = std::time::Instant::now();
                             let o = run(entry_of(kind), cfg, buf, cap);
-                            let el = t0.elapsed().as_nanos() as u64;
+                            let mut el = t0.elapsed().as_nanos() as u64;
+                            // timing is a sensor with a huge margin; take the best of three to damp scheduler noise
+                            for _ in 0..2 {
+                                let t1 = std::time::Instant::now();
+                                let _ = run(entry_of(kind), cfg, buf, cap);
+                                el = el.min(t1.elapsed().as_nanos() as u64);
+                            }
                             let c = o.counters;
-                            writeln!(w, "{{\"ev\":\"work\",\"family\":{},\"kind\":{},\"cfg\":{},\"cap\":{},\"len\":{},\"st\":{},\"cursors\":{},\"travel\":{},\"back\":{},\"peeks\":{},\"peek_bytes\":{},\"loads\":{},\"ops\":{},\"ns\":{},\"panicked\":{}}}",
-                                fam, kind, cfg, cap, d.len(), o.st, c.cursors, c.travel, c.back, c.peeks, c.peek_bytes, c.loads, c.ops, el, o.panicked).unwrap();
+                            writeln!(w, "{{\"ev\":\"work\",\"family\":{},\"kind\":{},\"cfg\":{},\"cap\":{},\"len\":{},\"st\":{},\"cursors\":{},\"travel\":{},\"back\":{},\"peeks\":{},\"peek_bytes\":{},\"loads\":{},\"ops\":{},\"us\":{},\"panicked\":{}}}",
+                                fam, kind, cfg, cap, d.len(), o.st, c.cursors, c.travel, c.back, c.peeks, c.peek_bytes, c.loads, c.ops, el / 1000, o.panicked).unwrap();
                             n += 1;
                         }
                     }
@@ -334,7 +358,7 @@ fn cmd_work(args: &[String]) {
             let buf = arena.place(d, Place::End);
             let o = run(E_HEADERS, 0, buf, 200);
             let c = o.counters;
-            writeln!(w, "{{\"ev\":\"work\",\"family\":{},\"kind\":2,\"cfg\":0,\"cap\":200,\"len\":{},\"st\":{},\"cursors\":{},\"travel\":{},\"back\":{},\"peeks\":{},\"peek_bytes\":{},\"loads\":{},\"ops\":{},\"ns\":0,\"panicked\":{}}}",
+            writeln!(w, "{{\"ev\":\"work\",\"family\":{},\"kind\":2,\"cfg\":0,\"cap\":200,\"len\":{},\"st\":{},\"cursors\":{},\"travel\":{},\"back\":{},\"peeks\":{},\"peek_bytes\":{},\"loads\":{},\"ops\":{},\"us\":0,\"panicked\":{}}}",
                 fam, d.len(), o.st, c.cursors, c.travel, c.back, c.peeks, c.peek_bytes, c.loads, c.ops, o.panicked).unwrap();
             n += 1;
         }
@@ -343,7 +367,7 @@ fn cmd_work(args: &[String]) {
         let buf = arena.place(&d, Place::End);
         let o = run(E_CHUNK, 0, buf, 0);
         let c = o.counters;
-        writeln!(w, "{{\"ev\":\"work\",\"family\":20,\"kind\":3,\"cfg\":0,\"cap\":0,\"len\":{},\"st\":{},\"cursors\":{},\"travel\":{},\"back\":{},\"peeks\":{},\"peek_bytes\":{},\"loads\":{},\"ops\":{},\"ns\":0,\"panicked\":{}}}",
+        writeln!(w, "{{\"ev\":\"work\",\"family\":20,\"kind\":3,\"cfg\":0,\"cap\":0,\"len\":{},\"st\":{},\"cursors\":{},\"travel\":{},\"back\":{},\"peeks\":{},\"peek_bytes\":{},\"loads\":{},\"ops\":{},\"us\":0,\"panicked\":{}}}",
             d.len(), o.st, c.cursors, c.travel, c.back, c.peeks, c.peek_bytes, c.loads, c.ops, o.panicked).unwrap();
         n += 1;
     }
